@@ -19,6 +19,8 @@ def run(chk, facts, tier):
     chk.rule('start-resets-fill', 'a start fragment that sets receive_size_ also resets receive_buffer_used_ (a repeated start fragment restarts the reassembly)', floor=1)
     chk.rule('deliver-complete-only', 'the reassembled SDU is returned only when receive_buffer_used_ != 0 && receive_size_ == 0', floor=1)
     chk.rule('free-matches-delivery', 'free_ll_l2cap_received releases the reassembly buffer exactly under the condition under which next_ll_l2cap_received hands it out (used != 0 && remaining == 0), otherwise the link layer PDU', floor=1)
+    chk.rule('sdu-buffer-single-owner', 'allocate_l2cap_transmit_buffer (MTU > 23) hands the SDU buffer out only while no byte of a committed SDU is waiting to be fragmented (transmit_size_ == 0 and transmit_buffer_used_ == 0): '
+             'a committed SDU is not overwritten before all its fragments were written to the link layer', floor=1)
     chk.rule('fragment-alloc-and-type', 'try_send_pdus allocates min(transmit_size_ + overhead, max_tx_size()), copies min(buffer, transmit_size_) bytes and types the fragment start/continuation by first_fragment', floor=3)
     for fn in variants(facts, SB + 'add_to_receive_buffer', chk):
         b, e = fn.params[0]['n'], fn.params[1]['n']
@@ -111,3 +113,12 @@ def run(chk, facts, tier):
             txt = h.args()[1].text()
             ok = ok and (('pdu_type_start' in txt) if first else ('pdu_type_continuation' in txt))
         chk.instance('fragment-alloc-and-type', fn, 'first fragment typed start, others continuation', ok, '' if ok else 'fragment type does not follow first_fragment', key='type')
+    for fn in [f for f in variants(facts, SB + 'allocate_l2cap_transmit_buffer', chk) if f.body.find(lambda n: n.k in REF_KINDS and n.n == 'transmit_buffer_')]:
+        rets = [r for r in fn.returns() if mentions(r, 'transmit_buffer_')]
+        ok = len(rets) == 1
+        if ok:
+            ats = guard_atoms(fn, rets[0])
+            ok = has_atom(ats, lambda n: is_name(n, 'transmit_size_'), {'=='}, lambda o: cval(o) == 0) and has_atom(ats, lambda n: is_name(n, 'transmit_buffer_used_'), {'=='}, lambda o: cval(o) == 0)
+        chk.instance('sdu-buffer-single-owner', fn, 'transmit_buffer_ handed out only under transmit_size_ == 0 && transmit_buffer_used_ == 0', ok,
+                     '' if ok else 'the SDU buffer is handed out again while fragments of the committed SDU are still to be sent (right after commit: used == 0, size != 0): the SDU is overwritten and never sent completely', key='alloc sdu')
+
